@@ -1,1 +1,106 @@
-import CnlModel.Rounding
+import CnlProofs.Rounding
+/-!
+# C08 — integer division under a rounding mode returns the correctly rounded quotient
+
+`Rounding.binOp R mode op x y` is the model of `rounding_integer<Rep, Tag>`'s binary operators
+(`rounding/{nearest,tie_to_pos_inf,neg_inf,native}_rounding_tag.h`), here instantiated with the
+built-in integers (`intOps`; the C++ semantics of `CnlModel.CInt`).  `roundDiv m a b` is the exact
+rational `a / b` rounded as `m` prescribes; `IsRounded m a b q` characterises it without division.
+
+* `roundDiv_isRounded`, `isRounded_unique` — the specification is consistent: the characterisation
+  holds of `roundDiv` and of no other integer.
+* `div_correct` — for **every** width (`IntTy` with `bits ≥ 1`, signed or unsigned, mixed operand
+  types `L`, `R` included), every rounding tag, every dividend and every non-zero divisor whose
+  values survive the usual arithmetic conversions and whose correctly rounded quotient is
+  representable in the result type `T = decltype(a / b)`: the division evaluates — with no undefined
+  behaviour in any intermediate step — to exactly that quotient, of type `T`.
+  Representability already excludes the overflowing `lowest / -1` (it rounds to `-lowest` in every
+  mode), so no separate precondition is needed.
+* `div_correct_same_type` — the special case of two operands of one type.
+* `other_ops_builtin`, `native_div` — every other operator under a rounding tag, and `/` under the
+  native tag, is the operator of the representation.
+
+`L.InRange a`, `R.InRange b` say that the operands are values of their types; `T.InRange a`,
+`T.InRange b` that the usual arithmetic conversions keep their values (they change a value only when a
+negative signed operand meets an unsigned type of at least its rank).
+-/
+namespace Cnl.C08
+open Cnl Cnl.Spec Cnl.Rounding
+
+/-- the characterisation holds of the oracle, in all four modes -/
+theorem roundDiv_isRounded (m : RoundMode) (a b : Int) (hb : b ≠ 0) : IsRounded m a b (roundDiv m a b) :=
+  Spec.roundDiv_isRounded m a b hb
+
+/-- … and pins the value -/
+theorem isRounded_unique (m : RoundMode) (a b q q' : Int)
+    (h : IsRounded m a b q) (h' : IsRounded m a b q') : q = q' :=
+  Spec.isRounded_unique m a b q q' h h'
+
+/-- division under a rounding tag returns the correctly rounded quotient (all widths, signed and
+unsigned, mixed operand types, all four tags) and executes no undefined behaviour -/
+theorem div_correct (mode : RdMode) (L R : IntTy) (hL : 1 ≤ L.bits) (hR : 1 ≤ R.bits) (a b : Int)
+    (haL : L.InRange a) (hbR : R.InRange b)
+    (haT : (usualArith L R).InRange a) (hbT : (usualArith L R).InRange b) (hb0 : b ≠ 0)
+    (hq : (usualArith L R).InRange (roundDiv (modeOf mode) a b)) :
+    Rounding.binOp intOps mode .div (.int L, a) (.int R, b)
+      = .ok (.int (usualArith L R), roundDiv (modeOf mode) a b) :=
+  binOp_div_eval mode hL hR haL hbR haT hbT hb0 hq
+
+/-- both operands of one type `T`: the result has the promoted type -/
+theorem div_correct_same_type (mode : RdMode) (T : IntTy) (hT : 1 ≤ T.bits) (a b : Int)
+    (ha : T.InRange a) (hb : T.InRange b) (hb0 : b ≠ 0)
+    (hq : (promote T).InRange (roundDiv (modeOf mode) a b)) :
+    Rounding.binOp intOps mode .div (.int T, a) (.int T, b)
+      = .ok (.int (promote T), roundDiv (modeOf mode) a b) := by
+  have h := div_correct mode T T hT hT a b ha hb
+  rw [usualArith_self] at h
+  exact h (promote_inRange hT ha) (promote_inRange hT hb) hb0 hq
+
+/-- every other operator under a rounding tag is the representation's operator -/
+theorem other_ops_builtin (R : RepOps) (mode : RdMode) (op : BinOp) (x y : Num) (h : op ≠ .div) :
+    Rounding.binOp R mode op x y = R.bin op x y :=
+  binOp_other R mode op x y h
+
+/-- the native tag divides as the representation does -/
+theorem native_div (R : RepOps) (x y : Num) : Rounding.binOp R .nat .div x y = R.bin .div x y :=
+  binOp_native_div R x y
+
+/-! ## non-vacuity: evaluations at the type limits, and satisfiable hypotheses -/
+
+-- nearest: the bias `lhs + rhs/2` of the unrepaired formula would overflow here
+example : Rounding.binOp intOps .nrst .div (.int i32, 2147483647) (.int i32, 2) = .ok (.int i32, 1073741824) := by decide +kernel
+example : Rounding.binOp intOps .nrst .div (.int i32, 2147483643) (.int i32, 2147483643) = .ok (.int i32, 1) := by decide +kernel
+example : Rounding.binOp intOps .nrst .div (.int i32, 0) (.int i32, -2147483648) = .ok (.int i32, 0) := by decide +kernel
+example : Rounding.binOp intOps .nrst .div (.int i32, -2147483648) (.int i32, 2147483647) = .ok (.int i32, -1) := by decide +kernel
+example : Rounding.binOp intOps .nrst .div (.int u32, 4294967295) (.int u32, 4294967295) = .ok (.int u32, 1) := by decide +kernel
+example : Rounding.binOp intOps .nrst .div (.int u32, 4294967295) (.int u32, 2) = .ok (.int u32, 2147483648) := by decide +kernel
+-- ties toward +infinity
+example : Rounding.binOp intOps .tpi .div (.int i32, -2147483648) (.int i32, 2147483647) = .ok (.int i32, -1) := by decide +kernel
+example : Rounding.binOp intOps .tpi .div (.int i32, 0) (.int i32, -2147483648) = .ok (.int i32, 0) := by decide +kernel
+example : Rounding.binOp intOps .tpi .div (.int i32, -3) (.int i32, 2) = .ok (.int i32, -1) := by decide +kernel
+example : Rounding.binOp intOps .tpi .div (.int u32, 4294967295) (.int u32, 4294967295) = .ok (.int u32, 1) := by decide +kernel
+-- toward −infinity, mixed operand types, 8-bit operands promote to `int`
+example : Rounding.binOp intOps .ninf .div (.int i8, -128) (.int i64, 3) = .ok (.int i64, -43) := by decide +kernel
+example : Rounding.binOp intOps .nrst .div (.int i8, -128) (.int u8, 255) = .ok (.int i32, -1) := by decide +kernel
+-- the excluded case: the rounded quotient `2^31` is not representable, and the code overflows
+example : ¬ i32.InRange (roundDiv (modeOf .nrst) (-2147483648) (-1)) := by decide
+example : Rounding.binOp intOps .nrst .div (.int i32, -2147483648) (.int i32, -1) = .ub .divOverflow := by decide +kernel
+-- the hypotheses of `div_correct` are satisfiable at the limits
+example : i32.InRange 2147483647 ∧ i32.InRange 2 ∧ (usualArith i32 i32).InRange (2147483647 : Int) ∧
+    (usualArith i32 i32).InRange (roundDiv (modeOf .nrst) 2147483647 2) := by decide
+example : IsRounded .nearestAway 7 2 4 ∧ IsRounded .nearestUp (-7) 2 (-3) ∧ IsRounded .floor (-7) 2 (-4) ∧
+    IsRounded .truncate (-7) 2 (-3) := by decide
+-- another operator under a rounding tag: the built-in one, overflow included
+example : Rounding.binOp intOps .tpi .mul (.int i16, -7) (.int u8, 3) = .ok (.int i32, -21) := by decide +kernel
+example : Rounding.binOp intOps .nrst .add (.int i32, 2147483647) (.int i32, 1) = .ub .signedOverflow := by decide +kernel
+
+/-! ## the hypotheses are needed -/
+
+-- `R.InRange b`: `2^31` is not a value of `i32`; the model's `rhs < 0` would read it as negative
+example : Rounding.binOp intOps .nrst .div (.int i64, 3) (.int i32, 2147483648) = .ok (.int i64, -1) ∧
+    roundDiv (modeOf .nrst) 3 2147483648 = 0 ∧ ¬ i32.InRange 2147483648 := by decide +kernel
+-- `T.InRange a`: the usual arithmetic conversions turn `-7` into `2^32 - 7` before dividing
+example : Rounding.binOp intOps .nrst .div (.int i32, -7) (.int u32, 2) = .ok (.int u32, 2147483643) ∧
+    ¬ (usualArith i32 u32).InRange (-7) := by decide +kernel
+
+end Cnl.C08
